@@ -17,6 +17,15 @@ pub(crate) fn eat_whitespace_and_commas(input: &[u8], inposp: &mut usize) {
     }
 }
 
+/// Get the input byte at `pos`, or an error if the input ends before it
+#[inline]
+pub(crate) fn peek(input: &[u8], pos: usize) -> Result<u8, Error> {
+    match input.get(pos) {
+        Some(b) => Ok(*b),
+        None => Err(InnerError::JsonBad("Too short", pos).into()),
+    }
+}
+
 /// Verify the next input character is as specified and move inposp past it
 #[inline]
 pub fn verify_char(input: &[u8], ch: u8, inposp: &mut usize) -> Result<(), Error> {
@@ -173,11 +182,11 @@ pub(crate) fn read_tags_array(
         eat_whitespace(input, inposp);
 
         // Check what is next
-        match input[*inposp] {
+        match peek(input, *inposp)? {
             b']' => {
                 *inposp += 1;
                 if tag_num != num_tags - 1 {
-                    panic!("Tag count mismatch");
+                    return Err(InnerError::JsonBad("Tag count mismatch", *inposp).into());
                 }
                 break;
             }
@@ -187,7 +196,7 @@ pub(crate) fn read_tags_array(
                 verify_char(input, b'[', inposp)?;
                 tag_num += 1;
                 if tag_num >= num_tags {
-                    panic!("Tag count mismatch");
+                    return Err(InnerError::JsonBad("Tag count mismatch", *inposp).into());
                 }
                 eat_whitespace(input, inposp);
             }
@@ -206,7 +215,7 @@ pub(crate) fn read_tags_array(
 // This does a quicker pass over the content than actual tag parsing does.
 pub(crate) fn count_tags(input: &[u8], mut inpos: usize) -> Result<usize, Error> {
     // First non-whitespace character after the opening brace
-    match input[inpos] {
+    match peek(input, inpos)? {
         b']' => return Ok(0), // no tags
         b'[' => (),           // expected
         _ => return Err(InnerError::JsonBad("Tag array bad initial character", inpos).into()),
@@ -218,7 +227,7 @@ pub(crate) fn count_tags(input: &[u8], mut inpos: usize) -> Result<usize, Error>
     eat_whitespace(input, &mut inpos);
 
     loop {
-        match input[inpos] {
+        match peek(input, inpos)? {
             b']' => return Ok(count),
             b',' => {
                 inpos += 1;
@@ -243,7 +252,7 @@ pub(crate) fn read_tag(
     *outposp += 2;
 
     // handle empty tag
-    if input[*inposp] == b']' {
+    if peek(input, *inposp)? == b']' {
         *inposp += 1;
         put(output, countpos, 0_u16.to_ne_bytes().as_slice())?;
 
@@ -255,7 +264,11 @@ pub(crate) fn read_tag(
     let mut num_strings: usize = 1;
     loop {
         // read string
-        let (inlen, outlen) = json_unescape(&input[*inposp..], &mut output[*outposp + 2..])?;
+        let strout = match output.get_mut(*outposp + 2..) {
+            Some(o) => o,
+            None => return Err(InnerError::BufferTooSmall(*outposp + 2).into()),
+        };
+        let (inlen, outlen) = json_unescape(&input[*inposp..], strout)?;
         // write the length before it
         put(output, *outposp, (outlen as u16).to_ne_bytes().as_slice())?;
         // bump the outposp past it
@@ -264,7 +277,7 @@ pub(crate) fn read_tag(
         *inposp += inlen + 1;
 
         eat_whitespace(input, inposp);
-        match input[*inposp] {
+        match peek(input, *inposp)? {
             b',' => {
                 *inposp += 1;
                 eat_whitespace(input, inposp);
@@ -299,7 +312,11 @@ pub(crate) fn read_content(
     verify_char(input, b'"', inposp)?;
 
     // Place content 4 bytes beyond tags, to reserve space for content length
-    let (inlen, outlen) = json_unescape(&input[*inposp..], &mut output[after_tags + 4..])?;
+    let contentout = match output.get_mut(after_tags + 4..) {
+        Some(o) => o,
+        None => return Err(InnerError::BufferTooSmall(after_tags + 4).into()),
+    };
+    let (inlen, outlen) = json_unescape(&input[*inposp..], contentout)?;
     *inposp += inlen + 1; // +1 to pass the end quote
 
     // Write content length
@@ -338,7 +355,7 @@ pub(crate) fn burn_string(input: &[u8], inposp: &mut usize) -> Result<(), Error>
             *inposp += 1;
         }
     }
-    if input[*inposp] == b'"' {
+    if *inposp < input.len() && input[*inposp] == b'"' {
         *inposp += 1;
         Ok(())
     } else {
@@ -351,14 +368,14 @@ pub(crate) fn burn_string(input: &[u8], inposp: &mut usize) -> Result<(), Error>
 pub(crate) fn burn_tag(input: &[u8], inposp: &mut usize) -> Result<(), Error> {
     eat_whitespace(input, inposp);
     // handle empty tag
-    if input[*inposp] == b']' {
+    if peek(input, *inposp)? == b']' {
         *inposp += 1;
         return Ok(());
     }
     verify_char(input, b'"', inposp)?;
     burn_string(input, inposp)?;
     eat_whitespace(input, inposp);
-    while input[*inposp] == b',' {
+    while peek(input, *inposp)? == b',' {
         *inposp += 1;
         eat_whitespace(input, inposp);
         verify_char(input, b'"', inposp)?;
@@ -384,7 +401,7 @@ pub(crate) fn burn_object(input: &[u8], inposp: &mut usize) -> Result<(), Error>
         eat_whitespace_and_commas(input, inposp);
 
         // Check for the end
-        if input[*inposp] == b'}' {
+        if peek(input, *inposp)? == b'}' {
             *inposp += 1;
             return Ok(());
         }
@@ -400,7 +417,7 @@ pub(crate) fn burn_array(input: &[u8], inposp: &mut usize) -> Result<(), Error> 
         eat_whitespace_and_commas(input, inposp);
 
         // Check for the end
-        if input[*inposp] == b']' {
+        if peek(input, *inposp)? == b']' {
             *inposp += 1;
             return Ok(());
         }
